@@ -1,9 +1,20 @@
 package pfmrl
 
 import (
+	"fmt"
+	"sort"
+	"strings"
 	"testing"
+	"time"
+
+	sdkmath "cosmossdk.io/math"
+
+	sdk "github.com/cosmos/cosmos-sdk/types"
 
 	packetforward "github.com/cosmos/ibc-go/v11/modules/apps/packet-forward-middleware"
+	transfertypes "github.com/cosmos/ibc-go/v11/modules/apps/transfer/types"
+	clienttypes "github.com/cosmos/ibc-go/v11/modules/core/02-client/types"
+	channeltypes "github.com/cosmos/ibc-go/v11/modules/core/04-channel/types"
 	ibctesting "github.com/cosmos/ibc-go/v11/testing"
 
 	"verif/harness/hx"
@@ -14,4 +25,374 @@ func pfmReceiver(c *ibctesting.TestChain, channel, sender string) (string, error
 	return packetforward.GetReceiver(c.GetSimApp().PFMKeeper.GetAddressCodec(), channel, sender)
 }
 
-func famPFM(t *testing.T, r *hx.Rng, o *hx.Out) {}
+// pfmWorld is one line of chains on which routes are run one after the other; after each route (at quiescence) all
+// balances, voucher supplies, total escrows and in-flight records of every chain are recorded.
+type pfmWorld struct {
+	w      *world
+	r      *hx.Rng
+	n      int
+	labels map[string][]any // address -> ["user"] | ["escrow", channel] | ["override", channel, sender address]
+	accts  []map[string]bool
+	routes []any
+	obs    []any
+	ops    []any // operations of the current route
+	init0  []any
+}
+
+func newPfmWorld(t *testing.T, r *hx.Rng, n int) *pfmWorld {
+	pw := &pfmWorld{w: newWorld(t, n), r: r, n: n, labels: map[string][]any{}}
+	for i := 0; i < n; i++ {
+		pw.accts = append(pw.accts, map[string]bool{})
+		for u := 1; u <= 3; u++ {
+			pw.track(i, pw.w.chains[i].SenderAccounts[u].SenderAccount.GetAddress().String(), []any{"user"})
+		}
+	}
+	for i, p := range pw.w.paths {
+		pw.track(i, transfertypes.GetEscrowAddress("transfer", p.EndpointA.ChannelID).String(), []any{"escrow", p.EndpointA.ChannelID})
+		pw.track(i+1, transfertypes.GetEscrowAddress("transfer", p.EndpointB.ChannelID).String(), []any{"escrow", p.EndpointB.ChannelID})
+	}
+	return pw
+}
+
+func (pw *pfmWorld) track(chain int, addr string, label []any) {
+	if old, ok := pw.labels[addr]; ok && fmt.Sprint(old) != fmt.Sprint(label) {
+		pw.w.t.Fatalf("address %s labelled twice: %v %v", addr, old, label)
+	}
+	pw.labels[addr] = label
+	pw.accts[chain][addr] = true
+}
+
+// ends returns the endpoint on chain i towards chain j (|i-j| = 1) and its counterparty.
+func (pw *pfmWorld) ends(i, j int) (*ibctesting.Endpoint, *ibctesting.Endpoint) {
+	if j == i+1 {
+		return pw.w.paths[i].EndpointA, pw.w.paths[i].EndpointB
+	}
+	return pw.w.paths[j].EndpointB, pw.w.paths[j].EndpointA
+}
+
+func (pw *pfmWorld) chainIndex(c *ibctesting.TestChain) int {
+	for i, x := range pw.w.chains {
+		if x == c {
+			return i
+		}
+	}
+	return -1
+}
+
+// endpointOf finds the endpoint of chain i that owns channel ch.
+func (pw *pfmWorld) endpointOf(i int, ch string) *ibctesting.Endpoint {
+	for _, p := range pw.w.paths {
+		if p.EndpointA.Chain == pw.w.chains[i] && p.EndpointA.ChannelID == ch {
+			return p.EndpointA
+		}
+		if p.EndpointB.Chain == pw.w.chains[i] && p.EndpointB.ChannelID == ch {
+			return p.EndpointB
+		}
+	}
+	return nil
+}
+
+func (pw *pfmWorld) emit(kind string, chain int, ch string, seq uint64) {
+	pw.ops = append(pw.ops, []any{kind, chain, ch, hx.U(seq)})
+}
+
+func (pw *pfmWorld) nextSeq(i int, ch string) uint64 {
+	c := pw.w.chains[i]
+	s, ok := c.App.GetIBCKeeper().ChannelKeeper.GetNextSequenceSend(c.GetContext(), "transfer", ch)
+	if !ok {
+		pw.w.t.Fatalf("no next sequence send")
+	}
+	return s
+}
+
+// relay relays the packet sent by chain si (depth-first, like the model's relay) and returns the acknowledgement
+// bytes that were written for the previous hop's packet by this hop's terminal handler (nil at the origin).
+func (pw *pfmWorld) relay(si int, pkt channeltypes.Packet, timeouts []int, depth int) []byte {
+	w := pw.w
+	srcEp := pw.endpointOf(si, pkt.SourceChannel)
+	dstEp := srcEp.Counterparty
+	di := pw.chainIndex(dstEp.Chain)
+	k := 0
+	if depth < len(timeouts) {
+		k = timeouts[depth]
+	}
+	for ; k > 0; k-- {
+		now := uint64(w.coord.CurrentTime.UnixNano())
+		if pkt.TimeoutTimestamp+uint64(time.Minute) > now {
+			w.coord.IncrementTimeBy(time.Duration(pkt.TimeoutTimestamp+uint64(time.Minute)-now) * time.Nanosecond)
+		}
+		w.block(dstEp.Chain)
+		pw.emit("timeout", si, pkt.SourceChannel, pkt.Sequence)
+		tr := w.timeoutPacket(srcEp, pkt)
+		if len(tr.sent) == 1 {
+			pkt = tr.sent[0] // retried
+			continue
+		}
+		return tr.ack
+	}
+	pw.emit("recv", di, pkt.DestinationChannel, pkt.Sequence)
+	rr := w.recv(dstEp, pkt)
+	if rr.ack != nil {
+		pw.emit("ack", si, pkt.SourceChannel, pkt.Sequence)
+		tr := w.ackPacket(srcEp, pkt, rr.ack)
+		return tr.ack
+	}
+	if len(rr.sent) != 1 {
+		w.t.Fatalf("async receive without exactly one forwarded packet (%d)", len(rr.sent))
+	}
+	up := pw.relay(di, rr.sent[0], timeouts, depth+1)
+	if up == nil {
+		w.t.Fatalf("forwarded packet finished without an acknowledgement for the previous hop")
+	}
+	pw.emit("ack", si, pkt.SourceChannel, pkt.Sequence)
+	tr := w.ackPacket(srcEp, pkt, up)
+	return tr.ack
+}
+
+type routePlan struct {
+	chainsIdx []int // c0 .. cm
+	retries   []int // per forward hop (index 1..m-1)
+	timeouts  []int // per hop 0..m-1
+	badRecv   bool
+	badChanAt int // forward hop whose memo names a channel that does not exist (-1: none)
+}
+
+// runRoute executes one route and records it.
+func (pw *pfmWorld) runRoute(pl routePlan, ui int, denom string, amt sdkmath.Int, tag string) {
+	w := pw.w
+	m := len(pl.chainsIdx) - 1
+	c0 := pl.chainsIdx[0]
+	acct := w.chains[c0].SenderAccounts[ui]
+	sender := acct.SenderAccount.GetAddress().String()
+	last := w.chains[pl.chainsIdx[m]]
+	final := last.SenderAccounts[1+pw.r.Intn(3)].SenderAccount.GetAddress().String()
+	if pl.badRecv {
+		final = badAddr
+	}
+	// nested memo, innermost first; override accounts along the way
+	memo := ""
+	var memoModel any
+	for j := m - 1; j >= 1; j-- {
+		ep, _ := pw.ends(pl.chainsIdx[j], pl.chainsIdx[j+1])
+		ch := ep.ChannelID
+		if pl.badChanAt == j {
+			ch = "channel-99"
+		}
+		recv := "pfm"
+		if j == m-1 {
+			recv = final
+		}
+		next := ""
+		if memo != "" {
+			next = `,"next":` + memo
+		}
+		memo = fmt.Sprintf(`{"forward":{"receiver":%q,"port":"transfer","channel":%q,"retries":%d,"timeout":"10m"%s}}`, recv, ch, pl.retries[j], next)
+		memoModel = map[string]any{"recv": recv, "chan": ch, "retries": pl.retries[j], "next": memoModel}
+	}
+	prevSender := sender
+	for j := 1; j < m; j++ {
+		_, in := pw.ends(pl.chainsIdx[j-1], pl.chainsIdx[j])
+		ov, err := pfmReceiver(w.chains[pl.chainsIdx[j]], in.ChannelID, prevSender)
+		if err != nil {
+			w.t.Fatalf("override receiver: %v", err)
+		}
+		pw.track(pl.chainsIdx[j], ov, []any{"override", in.ChannelID, prevSender})
+		prevSender = ov
+	}
+	ep0, _ := pw.ends(c0, pl.chainsIdx[1])
+	recv0 := final
+	if m > 1 {
+		recv0 = "pfm"
+	}
+	pw.ops = nil
+	tts := uint64(w.coord.CurrentTime.UnixNano()) + uint64(10*time.Minute)
+	pkt, err := w.transfer(w.chains[c0], &acct, "transfer", ep0.ChannelID, sdk.NewCoin(denom, amt), recv0, clienttypes.ZeroHeight(), tts, memo)
+	route := map[string]any{"chain": c0, "sender": sender, "chan": ep0.ChannelID, "denom": denom, "amt": amt.String(),
+		"recv": recv0, "memo": memoModel, "timeouts": pl.timeouts, "ok": err == nil}
+	if err == nil {
+		pw.relay(c0, *pkt, pl.timeouts, 0)
+	}
+	pw.routes = append(pw.routes, map[string]any{"route": route, "ops": pw.ops, "tag": tag})
+	pw.obs = append(pw.obs, pw.observe())
+}
+
+// observe: every tracked account's balances, voucher supplies, total escrows, in-flight records, per chain.
+func (pw *pfmWorld) observe() []any {
+	var out []any
+	for i, c := range pw.w.chains {
+		ctx := c.GetContext()
+		app := c.GetSimApp()
+		var bals [][]string
+		addrs := make([]string, 0, len(pw.accts[i]))
+		for a := range pw.accts[i] {
+			addrs = append(addrs, a)
+		}
+		sort.Strings(addrs)
+		for _, a := range addrs {
+			for _, coin := range app.BankKeeper.GetAllBalances(ctx, sdk.MustAccAddressFromBech32(a)) {
+				bals = append(bals, []string{a, coin.Denom, coin.Amount.String()})
+			}
+		}
+		var sups [][]string
+		app.BankKeeper.IterateTotalSupply(ctx, func(coin sdk.Coin) bool {
+			if strings.HasPrefix(coin.Denom, "ibc/") {
+				sups = append(sups, []string{coin.Denom, coin.Amount.String()})
+			}
+			return false
+		})
+		var escs [][]string
+		for _, coin := range app.TransferKeeper.GetAllTotalEscrowed(ctx) {
+			escs = append(escs, []string{coin.Denom, coin.Amount.String()})
+		}
+		var infl []string
+		for key := range app.PFMKeeper.ExportGenesis(ctx).InFlightPackets {
+			infl = append(infl, key)
+		}
+		sort.Strings(infl)
+		out = append(out, map[string]any{"bal": bals, "sup": sups, "esc": escs, "infl": infl})
+	}
+	return out
+}
+
+func (pw *pfmWorld) record(o *hx.Out, tag string) {
+	var chans []any
+	for i, p := range pw.w.paths {
+		chans = append(chans, []any{i, p.EndpointA.ChannelID, i + 1, p.EndpointB.ChannelID})
+	}
+	o.Emit("pfm_hist", map[string]any{"n": pw.n, "chans": chans, "labels": pw.labels, "init": pw.init0, "routes": pw.routes}, pw.obs, tag)
+}
+
+// pickToken chooses a token the user holds on chain i.
+func (pw *pfmWorld) pickToken(i, ui int) (string, sdkmath.Int) {
+	c := pw.w.chains[i]
+	coins := c.GetSimApp().BankKeeper.GetAllBalances(c.GetContext(), c.SenderAccounts[ui].SenderAccount.GetAddress())
+	// prefer vouchers when there are some: they exercise unwinding
+	var vs []sdk.Coin
+	for _, x := range coins {
+		if strings.HasPrefix(x.Denom, "ibc/") {
+			vs = append(vs, x)
+		}
+	}
+	if len(vs) > 0 && pw.r.Chance(2, 3) {
+		x := vs[pw.r.Intn(len(vs))]
+		a := sdkmath.NewInt(int64(1 + pw.r.Intn(50)))
+		if a.GT(x.Amount) || pw.r.Chance(1, 6) {
+			a = x.Amount
+		}
+		return x.Denom, a
+	}
+	return bond, sdkmath.NewInt(int64(100 + pw.r.Intn(900)))
+}
+
+func (pw *pfmWorld) randomRoute(maxHops int) {
+	n := pw.n
+	dir := 1
+	if pw.r.Bool() {
+		dir = -1
+	}
+	m := 1 + pw.r.Intn(maxHops)
+	if pw.r.Chance(1, 2) {
+		m = maxHops
+	}
+	var start int
+	if dir == 1 {
+		start = pw.r.Intn(n - m)
+	} else {
+		start = m + pw.r.Intn(n-m)
+	}
+	pl := routePlan{badChanAt: -1}
+	for j := 0; j <= m; j++ {
+		pl.chainsIdx = append(pl.chainsIdx, start+dir*j)
+	}
+	for j := 0; j < m; j++ {
+		pl.retries = append(pl.retries, pw.r.Intn(3))
+		t := 0
+		if pw.r.Chance(1, 4) {
+			t = 1 + pw.r.Intn(2)
+		}
+		pl.timeouts = append(pl.timeouts, t)
+	}
+	pl.badRecv = pw.r.Chance(1, 4)
+	if m > 1 && pw.r.Chance(1, 8) {
+		pl.badChanAt = 1 + pw.r.Intn(m-1)
+	}
+	ui := 1 + pw.r.Intn(3)
+	denom, amt := pw.pickToken(start, ui)
+	pw.runRoute(pl, ui, denom, amt, "random")
+}
+
+// famPfmDenom: getDenomForThisChain (through the verif hook) on generated traces: first hop equal to the counterparty
+// (port, channel), equal in one component only, empty trace, unwinding to native, unwinding to a shorter trace.
+func famPfmDenom(r *hx.Rng, o *hx.Out) {
+	ports := []string{"transfer", "icahost", "tr"}
+	chs := []string{"channel-0", "channel-1", "channel-12", "07-tendermint-3"}
+	bases := []string{"stake", "uatom", "gamm/pool/1", "a"}
+	n := hx.N(120, 3000)
+	for i := 0; i < n; i++ {
+		port, ch := r.Pick(ports), r.Pick(chs)
+		cport, cch := r.Pick(ports), r.Pick(chs)
+		var trace []transfertypes.Hop
+		tag := "random"
+		for l := r.Intn(4); l > 0; l-- {
+			trace = append(trace, transfertypes.NewHop(r.Pick(ports), r.Pick(chs)))
+		}
+		switch r.Intn(6) {
+		case 0:
+			trace = append([]transfertypes.Hop{transfertypes.NewHop(cport, cch)}, trace...)
+			tag = "prefix"
+		case 1:
+			trace = append([]transfertypes.Hop{transfertypes.NewHop(cport, r.Pick(chs))}, trace...)
+			tag = "port-only"
+		case 2:
+			trace = append([]transfertypes.Hop{transfertypes.NewHop(r.Pick(ports), cch)}, trace...)
+			tag = "channel-only"
+		case 3:
+			trace = []transfertypes.Hop{transfertypes.NewHop(cport, cch)}
+			tag = "unwind-to-native"
+		case 4:
+			trace = nil
+			tag = "native"
+		}
+		base := r.Pick(bases)
+		var tr [][]string
+		for _, h := range trace {
+			tr = append(tr, []string{hx.HS(h.PortId), hx.HS(h.ChannelId)})
+		}
+		d := transfertypes.Denom{Base: base, Trace: append([]transfertypes.Hop{}, trace...)}
+		out := packetforward.VerifGetDenomForThisChain(port, ch, cport, cch, d)
+		o.Emit("pfm_denom", []any{hx.HS(port), hx.HS(ch), hx.HS(cport), hx.HS(cch), tr, hx.HS(base)}, hx.HS(out), tag)
+	}
+}
+
+func famPFM(t *testing.T, r *hx.Rng, o *hx.Out) {
+	famPfmDenom(r, o)
+	worlds := hx.N(4, 40)
+	for i := 0; i < worlds; i++ {
+		n := 4
+		if hx.Tier() == "thorough" && i%2 == 1 {
+			n = 5
+		}
+		pw := newPfmWorld(t, r, n)
+		pw.init0 = pw.observe()
+		// two full-length successful forwards first, one in each direction: afterwards both ends hold vouchers, so
+		// the random routes below unwind as often as they wind
+		for _, dir := range []int{1, -1} {
+			pl := routePlan{badChanAt: -1}
+			for j := 0; j < n; j++ {
+				idx := j
+				if dir == -1 {
+					idx = n - 1 - j
+				}
+				pl.chainsIdx = append(pl.chainsIdx, idx)
+				pl.retries = append(pl.retries, 0)
+				pl.timeouts = append(pl.timeouts, 0)
+			}
+			pw.runRoute(pl, 1+i%3, bond, sdkmath.NewInt(5000), "seed-vouchers")
+		}
+		routes := hx.N(8, 16)
+		for j := 0; j < routes; j++ {
+			pw.randomRoute(n - 1)
+		}
+		pw.record(o, fmt.Sprintf("line-%d", n))
+	}
+}
